@@ -359,8 +359,8 @@ def run(chk, tier):
     if _X8.traits_order_area(chk, db, ['_string_view/basic_string_view.hpp']) < 4:      # TRAITSORD
         chk.analysis_broken('TRAITSORD: fewer than 4 ordering operations of basic_string_view found (floor 4)')
     from ..rules import extra10 as _X10c
-    if _X10c.char_cast_area(chk, db, ('_string/char_traits.hpp',)) < 2:      # CHARCAST
-        chk.analysis_broken('CHARCAST: fewer than 2 narrowing conversions of a character found in char_traits (floor 2)')
+    _X10c.char_cast_area(chk, db, ('_string/char_traits.hpp',))      # CHARCAST (may match nothing: then the controls carry it)
+    _X10c.char_cast_control(chk, D)
     from ..rules import extra12 as _X12
     if _X12.empty_quantifier_area(chk, db, ['_algorithm/none_of', '_algorithm/all_of', '_algorithm/any_of']) < 1:      # EMPTYQ: find_last_not_of rests on none_of
         chk.analysis_broken('EMPTYQ: none_of not found (floor 1)')
